@@ -37,7 +37,25 @@ class TemperatureFile(TemperatureArray):
             temperature_arr = arr[:]*convertT
 
         super().__init__(tp_array=temperature_arr, p_points=pressure_arr)
+        self._file_keywords = dict(filename=filename, skiprows=skiprows,
+                                   temp_col=temp_col, press_col=press_col,
+                                   temp_units=temp_units,
+                                   press_units=press_units,
+                                   delimiter=delimiter, reverse=reverse)
 
+    def write(self, output):
+        temperature = super().write(output)
+        # the constructor keywords, so that the profile can be rebuilt
+        # from the file it was read from (None cannot be stored and is
+        # the default anyway)
+        for key, value in self._file_keywords.items():
+            if value is None:
+                continue
+            if isinstance(value, str):
+                temperature.write_string(key, value)
+            else:
+                temperature.write_scalar(key, value)
+        return temperature
 
     @classmethod
     def input_keywords(cls):
